@@ -581,7 +581,12 @@ func (d *c08Doc) sigs(li int) []c08Sig {
 			}
 			switch {
 			case nb >= 0 && nb != d.semi[l.line]:
-				out = append(out, c08Sig{c08ClsCommText, l.rs, cm.rs})
+				// the amount is the quantity alone: it ends after the number's last character
+				qe := cm.rs
+				for qe > l.rs && d.blank[l.line][qe-1] {
+					qe--
+				}
+				out = append(out, c08Sig{c08ClsCommText, l.rs, qe})
 			case nb > l.re && nb == d.semi[l.line]:
 				// blanks and a comment follow: the text token (and with it the amount) runs to the ';'
 				out = append(out, c08Sig{c08ClsCommText, l.rs, nb})
